@@ -185,7 +185,7 @@ def classify(case):
         if kind == "sqlite" and m and not re.search(r"\._expr_\d+$", m.group(1)) and re.search(r"ORDER BY [^()]*\b%s\b" % re.escape(m.group(1)), code):
             return "C07-N1-order-by-inner-relation"
     # N2: loop whose step is split: recursive reference inside a derived table
-    if "loop" in src and "WITH RECURSIVE" in code and ((kind == "sqlite" and "circular reference" in msg) or (kind == "scope" and diag[0] == 2)):
+    if "loop" in src and ("WITH RECURSIVE" in code or (d == "mssql" and re.search(r"\bWITH\b", code))) and ((kind == "sqlite" and "circular reference" in msg) or (kind == "scope" and diag[0] == 2)):
         return "C07-N2-recursive-ref-in-subquery"
     # N3: INTERVAL literal where the engine has none
     if d in ("sqlite", "mssql") and INTERVAL_LIT.search(src) and "INTERVAL" in code:
